@@ -491,6 +491,25 @@ def _signature(kind: str) -> Edit:
     return edit
 
 
+def _signature_retyped(ch: Choices, r: Psbt, a: Psbt, cer: gw.Ceremony) -> Psbt | None:
+    """A signature the answer added, filed under another (defined) hash type than the one it was made for: the
+    same DER or Schnorr octets, another last byte. It signs another message, so it is not a valid added signature."""
+    found = _new_signatures(r, a)
+    if not found:
+        return None
+    atom = found[ch.draw(len(found), "edit.signature")]
+    sig = get_atom(a, atom)
+    if atom[2] == "partial_sigs":
+        others = [t for t in (0x01, 0x02, 0x03, 0x81, 0x82, 0x83) if t != sig[-1]]
+        set_atom(a, atom, sig[:-1] + bytes([ch.pick(others, "edit.type")]))
+    else:
+        body, was = (sig, 0) if len(sig) == 64 else (sig[:64], sig[64])
+        others = [t for t in (0x01, 0x02, 0x03, 0x81, 0x82, 0x83, 0) if t != was]
+        t = ch.pick(others, "edit.type")
+        set_atom(a, atom, body + (bytes([t]) if t else b""))
+    return a
+
+
 def _foreign_signature(ch: Choices, r: Psbt, a: Psbt, cer: gw.Ceremony) -> Psbt | None:
     """A well-formed signature filed under a key nobody asked: some other entry's bytes."""
     found = [x for x in atoms(a) if x[2] == "partial_sigs"]
@@ -591,6 +610,7 @@ EDITS: list[tuple[str, Edit]] = [
     ("signature-dropped", _signature("dropped")),
     ("signature-invalid", _signature("invalid")),
     ("signature-foreign", _foreign_signature),
+    ("signature-retyped", _signature_retyped),
     ("modifiable-loosened", _modifiable_loosened),
     ("output-script", _output_script),
     ("field-dropped", _dropped(lambda a: a[2] != "unknown")),
